@@ -85,6 +85,10 @@ var (
 		Reason:  wamp.ErrSystemShutdown,
 		Details: wamp.Dict{},
 	}
+
+	// errSessionAborted is returned to the session's message handler when the
+	// session must be ended and ABORT has already been sent to the client.
+	errSessionAborted = errors.New("session aborted")
 )
 
 // newRealm creates a new realm with the given RealmConfig, broker and dealer.
@@ -409,7 +413,10 @@ func (r *realm) handleSession(sess *wamp.Session) error {
 	}
 	go func() {
 		shutdown, killAll, err := r.handleInboundMessages(sess)
-		if err != nil {
+		if err != nil && errors.Is(err, errSessionAborted) {
+			// ABORT was already sent.
+			r.log.Println("Aborted session", sess, ":", err)
+		} else if err != nil {
 			abortMsg := wamp.Abort{
 				Reason:  wamp.ErrProtocolViolation,
 				Details: wamp.Dict{wamp.OptMessage: err.Error()},
@@ -485,11 +492,17 @@ func (r *realm) handleInboundMessages(sess *wamp.Session) (bool, bool, error) {
 
 		switch msg := msg.(type) {
 		case *wamp.Publish:
-			r.broker.publish(sess, msg)
+			if err := r.broker.publish(sess, msg); err != nil {
+				return false, false, err
+			}
 		case *wamp.Yield:
-			r.dealer.yield(sess, msg)
+			if err := r.dealer.yield(sess, msg); err != nil {
+				return false, false, err
+			}
 		case *wamp.Call:
-			r.dealer.call(sess, msg)
+			if err := r.dealer.call(sess, msg); err != nil {
+				return false, false, err
+			}
 		case *wamp.Cancel:
 			r.dealer.cancel(sess, msg)
 		case *wamp.Subscribe:
